@@ -69,6 +69,23 @@ class DateRange(T.Range):
     pass
 
 
+class LangWord(T.Word):
+    """a user-defined node class with one more attribute that takes part in equality"""
+    _equality_attrs = ["value", "lang"]
+
+    def __init__(self, value, lang="en", **kwargs):
+        super().__init__(value, **kwargs)
+        self.lang = lang
+
+
+class Bracket(T.Group):
+    _equality_attrs = ["style"]
+
+    def __init__(self, expr=None, style="round", **kwargs):
+        super().__init__(expr, **kwargs)
+        self.style = style
+
+
 class XorOperation(T.OrOperation):
     pass
 
@@ -208,6 +225,17 @@ def check(item):
             pb = "input modified"
         if pb:
             fails.append({"input": label, "signature": "copy", "observation": "%s(%r): %s" % (tcls.__name__, kw, pb)})
+        # ... and, in the same process (after the stock classes have been copied), a tree of user-defined classes with attributes of their own
+        n += 1
+        own = T.AndOperation(LangWord("bonjour", lang="fr"), T.Word("x"), Bracket(T.OrOperation(LangWord("hola", lang="es"), T.Word("y")), style="square"))
+        try:
+            y2 = tcls(**kw).visit(own)
+            got = [(type(x).__name__, getattr(x, "lang", None), getattr(x, "style", None)) for x in gen.nodes(y2)]
+            want = [(type(x).__name__, getattr(x, "lang", None), getattr(x, "style", None)) for x in gen.nodes(own)]
+            if got != want or not (y2 == own) or not (own == y2) or any(a is b for a, b in zip(gen.nodes(y2), gen.nodes(own))):
+                fails.append({"input": label, "signature": "copy-subclass", "observation": "%s(%r): copy of a tree of user-defined classes is %r, the input %r" % (tcls.__name__, kw, got, want)})
+        except Exception as e:  # noqa: BLE001
+            fails.append({"input": label, "signature": "raised", "observation": "%s(%r).visit of a tree of user-defined classes raised %r" % (tcls.__name__, kw, e)})
     return n, fails[:3]
 
 
